@@ -263,7 +263,7 @@ func collect(f *flags, overlay map[string][]byte) (*propWork, error) {
 	}
 	for _, k := range keys {
 		fn := ld.funcs[k]
-		if fn == nil && db.Funcs[k].Pure && ld.isInterfaceMethodKey(k) {
+		if fn == nil && ld.isInterfaceMethodKey(k) {
 			continue // contract of an interface method (used at invoke sites, nothing to verify)
 		}
 		if fn == nil {
